@@ -94,6 +94,19 @@ Proof.
 Qed.
 Print Assumptions C09_listener_limits.
 
+(* The refusal path (limiter / per-connection concurrency limit): udpServer.handleMsg and handleConn pack the REFUSED
+   response with size 0, i.e. WITHOUT a limit.  That is safe because makeEmptyRespM copies at most one question: the
+   response is one message of at most 271 octets on UDP and DoH (below 512) and one correctly prefixed frame on the
+   stream listeners, whatever the refused query looked like (many questions, long names, any sections). *)
+Theorem C09_refusal_small : forall (l : listener) (q : msg), wf_msg q ->
+  exists b, refuse l q = [b] /\
+            match l with
+            | LTcp => exists body, b = be16n (length body) ++ body /\ length body <= max_size
+            | _ => length b <= 271
+            end.
+Proof. exact refuse_size. Qed.
+Print Assumptions C09_refusal_small.
+
 (* With compression ON (what the listeners use), for EVERY well-formed message: the
    size-limited encoding decodes cleanly, whatever follows it — the header counts are the records present —, to a
    message whose header is the original with TC := TC || (something omitted), whose questions, answers and
